@@ -10,7 +10,7 @@ from nix_manipulator.expressions.binding import Binding
 seed, N = int(sys.argv[1]), int(sys.argv[2])
 R = random.Random(seed * 13 + 13)
 viol, dist, known, samples = [], {}, {}, []
-CH = list('ab \t\n\r"\\$\'{}#;=.-é→') + ['$$', "''", '\\n', '$ {', '$"', '$\\', '\x7f', '\x1b']
+CH = list('ab \t\n\r"\\$\'{}#;=.-é→') + ['$$', "''", '\\n', '$ {', '$"', '$\\', '\x7f', '\x1b', '\x08', '\x0c', '\x01', '\x0b']
 KEYS = ['a', 'b', 'name', 'meta', 'x1', "k'", '_u', 'version']
 def string(): return ''.join(R.choice(CH) for _ in range(R.randint(0, 8))).replace('${', '$ {')
 def integer(): return R.choice([0, 1, -1, 7, 42, -42, 10 ** 6, -10 ** 9, 2 ** 62, -2 ** 62, R.randrange(-1000, 1000)])
@@ -32,14 +32,14 @@ def dct(depth):
 import re
 NIX_FLOAT = re.compile(r'(([1-9][0-9]*\.[0-9]*)|(0?\.[0-9]+))([Ee][+-]?[0-9]+)?')
 def classify(v):
-    """known findings: negative numbers as list elements (F-14), floats whose repr is not a Nix literal (F-15), control characters below 0x20 other than tab/LF/CR in strings (F-16)"""
+    """known findings: negative numbers as list elements (F-14), floats whose repr is not a Nix literal (F-15), NUL in strings (F-16)"""
     hits = set()
     def w(x, in_list):
         if isinstance(x, bool) or x is None: return
         if isinstance(x, (int, float)) and x < 0 and in_list: hits.add('F-14')
         if isinstance(x, float) and not NIX_FLOAT.fullmatch(repr(abs(x))): hits.add('F-15')          # repr is not a Nix float literal (1e-07, 1e+22, inf, nan); 1.5e-07 IS one
         if isinstance(x, int) and not isinstance(x, bool) and not (-2 ** 63 <= x < 2 ** 63): hits.add('F-24')
-        if isinstance(x, str) and any(ord(c) < 32 and c not in '\t\n\r' for c in x): hits.add('F-16')
+        if isinstance(x, str) and '\x00' in x: hits.add('F-16')         # NUL only: every other control character is emitted raw and read back unchanged (eighth round: the domain had been all of 0x01-0x1f)
         if isinstance(x, list): [w(y, True) for y in x]
         if isinstance(x, dict): [w(y, False) for y in x.values()]
     w(v, False); return hits
